@@ -546,3 +546,14 @@ CHECKS["C12"] = {
     "assumptions": COMMON_ASSUME + CONC_ASSUME,
     "units": [unit("./internal/controller/system", ["system/c12.go"], "^Harness_C12_", QT, extra=SYS_EXTRA, flags={"labels": "^(C12:|C11:|no-panic)", "max-decisions": 6000}, reach=["end"])],
 }
+
+
+CHECKS["C33"] = {
+    "level": "other",
+    "explanation": "The real replication Manager (StartPipeline / startPipeline with its persisting goroutine, StopPipeline, ResetPipeline), the real PipelineHandler (Run, Shutdown) and the real DriverFacade run as logical threads of the executor — goroutines, channels, select, mutexes, wait groups and contexts of the code under test included; time.After fires when every thread is blocked (time passes only at quiescence), rand is 0. The storage, the log source and the exporter driver are harness objects behind the interfaces the package defines (Storage, LogFetcher, drivers.Driver / Factory). Goroutines of the package run eagerly; a thread that reaches a storage or exporter call (an explicit yield) is resumed by a decision, at any later scheduling point — so the order of StorePipelineState / Accept against everything else is explored. Injected failures: the fetch of a page and the exporter's Accept fail at symbolically chosen calls. Decided: the exporter is called with every log, in id order, never skipping (re-delivery allowed), until all are acknowledged — across failures, a stop/start at any point of the delivery, and a reset at any point; after a reset the delivery restarts from the first log; every value written by StorePipelineState is at most the greatest id acknowledged since the last reset. The last obligation fails in the recorded schedule (finding).",
+    "bounds": {"quick": "one pipeline, 2-4 logs, page sizes 1-2, <= 2 exporter failures or 1 fetch failure; stop/start and reset after 0..n acknowledged logs; schedules: eager goroutines, decisions at storage / exporter calls", "thorough": "same"},
+    "outside": "manager Run / synchronizePipelines / Stop (restart of the manager is represented by stop + start from the persisted position); several pipelines sharing an exporter; drivers' own batching; schedules in which a goroutine of the package is preempted elsewhere than at a blocking operation or a storage / exporter call; liveness beyond the explored bounds (a path that exceeds the decision bound is inconclusive); native replay of arbitrary schedules (real goroutines cannot be stepped: the recorded schedule is replayed by a dedicated native harness that forces it with gates)",
+    "assumptions": COMMON_ASSUME + ["timers only delay: a time.After channel with a positive duration delivers when every logical thread is blocked", "logging is a no-op"],
+    "units": [unit("./internal/replication", ["replication/c33.go"], "^Harness_C33_", QT, flags={"labels": "^(C33:|no-panic)", "max-decisions": 6000, "max-paths": 100000},
+                   reach=["end"], validate_witnesses=0, replay_by_label={"^C33:persisted-position-never-ahead-of-acknowledged$": "Replay_C33_stale_store_after_reset"})],
+}
